@@ -140,7 +140,8 @@ Injective(q) == \A i, j \in DOMAIN q : i # j => q[i] # q[j]
 PreSeqs == {q \in UNION {[1..k -> PreToks] : k \in 0..MaxPre} : Injective(q)}
 RetSeqs == UNION {[1..k -> RetKinds] : k \in 0..MaxRets}
 ClsName == <<"Order", "Util">>
-MethodNames == IF MaxMembers > 1 THEN {<<"alpha">>, <<"beta">>} ELSE {<<"alpha">>}
+\* two names (a plain one and a getter) so that class bodies with overloads and get*/set* methods are explored
+MethodNames == IF MaxMembers > 1 THEN {<<"alpha">>, <<"get", "Beta">>} ELSE {<<"alpha">>}
 
 Fresh == [name |-> "", annotations |-> <<>>, modifiers |-> <<>>, isReturnNull |-> FALSE, ctor |-> FALSE]
 
@@ -397,6 +398,11 @@ Next == \/ MapMethod \/ MapDone \/ CountCall \/ NextMethod \/ SortAndPrint
 Spec == Init /\ [][Next]_vars
 
 \* generation: every explored abstract input becomes a replay case for the real code
-Emit == Finished => PrintT(<<"CASE", ToJson([part |-> Part, input |-> input])>>)
+\* (with the Machine's own report: compared with the real code's report as a drift note, never a verdict)
+MachineObs == CASE Part = "count"   -> [rows |-> rows]
+                [] Part = "eval"    -> [classes |-> summary.classes, methods |-> summary.methods, statics |-> summary.statics,
+                                        utils |-> summary.utils, nullable |-> SetToSeq(nullableMap)]
+                [] Part = "concept" -> [rows |-> ConceptObs.concept.rows]
+Emit == Finished => PrintT(<<"CASE", ToJson([part |-> Part, input |-> input, machine |-> MachineObs])>>)
 
 =============================================================================
